@@ -24,16 +24,6 @@ HEADER = ("From Coq Require Import ZArith List Bool.\nFrom TFV Require Import St
 
 KEYS = ["a", "b", "c", "d", "e", "f", "g", "h"]
 
-# finding proposed for KNOWN_FINDINGS.json (this builder may not edit that file).  While it is not
-# listed there the check prints the KNOWN-FINDING line itself; once listed (status open, same
-# site+fingerprint) it goes through common.finish like every other finding.
-F14 = {"site": "tf_pwa/data.py LazyCall.__iter__", "fingerprint": "lazy_empty_extra_max_iter",
-       "what": "LazyCall.__iter__ splits self.extra on its own; an empty extra ({}) holds no array, so it yields only MAX_ITER=1000 "
-               "copies and zip() ends the iteration there: LazyCall(f, {'a': arange(1003)}).as_dataset(1) -> 1000 batches, "
-               "batch_call on it returns 1000 of 1003 rows"}
-PENDING = []
-
-
 # ---------------------------------------------------------------- structures
 
 
@@ -485,12 +475,10 @@ def lazy_cases(ctx, rnd, np, nlazy, direct):
         cases.append(("lazybig_%s" % tag, "list_eqb data_eqb (lazy_batches (map_leaves (affine 2%%Z 1%%Z)) 1000 1 %s %s) [%s] = true" % (enc(x), enc(extra), ";".join(enc(p) for p in pieces)),
                       {"op": "LazyCall iteration, 1003 batches", "extra": sorted(extra), "pieces": len(pieces)}))
         ctx.evaluations += 1
-        if not struct_eq(D.data_merge(*pieces), D.data_to_numpy(lz.eval())):
-            inp = {"test": "data_merge(*LazyCall.as_dataset(1)) == LazyCall.eval()", "n": 1003, "extra": sorted(extra), "pieces": len(pieces)}
-            if with_extra:
-                direct.append(inp)
-            else:
-                PENDING.append((F14, inp))
+        out = D.batch_call(lambda d: d["a"], lz, 1)
+        if not (pieces and struct_eq(D.data_merge(*pieces), D.data_to_numpy(lz.eval())) and np.array_equal(D.data_to_numpy(out), 2 * x["a"] + 1)):
+            inp = {"test": "data_merge(*LazyCall.as_dataset(1)) == LazyCall.eval() and batch_call(f, lazy, 1) == f(eval)", "n": 1003, "extra": sorted(extra), "pieces": len(pieces)}
+            direct.append(inp)
     for li in range(nlazy):
         n = rnd.choice([1, 2, 5, 9, rnd.randrange(1, 51)])
         a, c = rnd.randrange(1, 5), rnd.randrange(-3, 4)
@@ -544,7 +532,6 @@ def run(ctx):
     os.makedirs(scratch, exist_ok=True)
     direct = []
     cases = []
-    del PENDING[:]
     try:
         cases += tree_cases(ctx, rnd, np, 30 if quick else 200, direct)
         ctx.log("tree cases: %d" % len(cases))
@@ -565,20 +552,13 @@ def run(ctx):
             ctx.fail("tie", cid, "implementation output differs from the model (%s)" % r, inp=meta[cid],
                      site="tf_pwa.data " + str(meta[cid].get("op")), fingerprint="tie")
     ctx._direct = direct
-    known = [k for k in common.load_known() if k.get("property") == "C18" and k.get("status") == "open"]
-    for fnd, inp in PENDING:
-        if any(k.get("site") == fnd["site"] and k.get("fingerprint") == fnd["fingerprint"] for k in known):
-            ctx.fail("property", fnd["fingerprint"], fnd["what"], inp=inp, site=fnd["site"], fingerprint=fnd["fingerprint"], failing_input=inp)
-        else:
-            print("KNOWN-FINDING: property=C18 (pending entry for KNOWN_FINDINGS.json) %s" % fnd["what"], flush=True)
-            ctx.notes.append("reproduced (not yet in KNOWN_FINDINGS.json): " + fnd["what"])
     for d in direct:
         ctx.fail("property", "direct", "round trip fails on the implementation: %s" % d["test"], inp=d,
                  site="tf_pwa.data", fingerprint="direct", failing_input=d)
     return common.finish(ctx, search=search, technique=TECHNIQUE, extra_assumptions=[
         "NumPy text / npy / npz / pickle I/O and tf.data are runtime: exercised and compared exactly, not modelled",
         "merge o split = id needs: every array has the same number n > 0 of rows; sys.maxsize is represented in the model by the total batch count of the arrays (theorem C18_bound_irrelevant)",
-        "lazy = eager is proved for a LazyCall without extra entries and at most MAX_ITER batches (refuted beyond: finding F14)",
+        "lazy = eager is proved for a LazyCall without extra entries; with extra entries it is tied only",
         "data_merge is modelled for pieces with identical key sequences (what data_split yields); its error cases are not modelled",
     ])
 
